@@ -155,6 +155,22 @@ pub fn run(opts: &HashMap<String, String>) -> i32 {
                     run_traced(rid + 1 + k as u64, &input, &v);
                     runs += 1;
                 }
+                // the parser's own entry points (default chunk size): from_read, from_buf_reader with a BufReader that
+                // already holds input, from_boxed_dyn_read
+                if parser != "log" {
+                    let c = rng.gen_range(1..=3u8);
+                    let mut v = match c {
+                        1 => variant(&base, Policy::Random(5), "random5", 16384, 0, s ^ 0x51),
+                        2 => variant(&base, Policy::Fixed(2), "fixed2", 16384, 0, s ^ 0x52),
+                        _ => variant(&base, Policy::Random(9), "random9", 16384, 200, s ^ 0x53),
+                    };
+                    v.ctor = c;
+                    if c == 2 {
+                        v.bufreader = Some((rng.gen_range(1..=24), 0));
+                    }
+                    run_traced(rid + 900, &input, &v);
+                    runs += 1;
+                }
                 // read boundaries placed inside tokens: (a) right after the 8th (7th after '-') byte of every long
                 // digit run, so that the SWAR fast path ends exactly at the end of the buffered data; (b) in the
                 // middle of every token
@@ -220,7 +236,14 @@ pub fn run(opts: &HashMap<String, String>) -> i32 {
                 }
                 for (j, k) in ks.iter().enumerate() {
                     let mut v = if j % 2 == 0 {
-                        variant(&base, Policy::Full, "full", 16384, 0, s)
+                        let mut v = variant(&base, Policy::Full, "full", 16384, 0, s ^ ((j as u64) << 20));
+                        if parser != "log" && j % 6 == 4 {
+                            v.ctor = 1 + (j / 6 % 3) as u8;
+                            if v.ctor == 2 {
+                                v.bufreader = Some((1 + j % 9, 0));
+                            }
+                        }
+                        v
                     } else {
                         variant(&base, Policy::Random(3), "random3", [1usize, 2, 4][rng.gen_range(0..3)], 0, s ^ j as u64)
                     };
